@@ -8,7 +8,7 @@ import sys
 sys.path.insert(0, "lib")
 import engine as E
 import props as P
-for k in ["mon", "bins", "tantivy", "asan"]:
+for k in ["mon", "bins", "tantivy", "asan", "dbg"]:
     E.build(k)
 P.build_many(["feat:" + n for n in P.QUICK_FEATURE_SETS])
 E.build_miri()
